@@ -56,3 +56,33 @@ Proof.
   unfold mode_wf. intros Hs H. unfold set_json_mode, mode_of. rewrite H. destruct s as [j co]; cbn in *.
   destruct j, co; try reflexivity; discriminate.
 Qed.
+
+(* ---- the translations regenerated from the source (Gen/Decisions.v) against the model ---- *)
+Require Verif.Gen.Decisions.
+Require Import Verif.Model.DecisionRef.
+
+Lemma fold_last_bool : forall (b : list bool) (d : bool),
+  fold_left (fun (mode : bool) (bb : bool) => let mode := bb in mode) b d = last_of d b.
+Proof. reflexivity. Qed.
+
+Lemma gen_set_json_mode : forall j c b, Decisions.set_json_mode j c b = set_json_mode_ref j c b.
+Proof.
+  intros j c b. unfold Decisions.set_json_mode, set_json_mode_ref, set_json_mode. cbn zeta.
+  rewrite fold_last_bool. destruct (last_of true b); reflexivity.
+Qed.
+
+Lemma gen_set_color_mode : forall j c b, Decisions.set_color_mode j c b = set_color_mode_ref j c b.
+Proof.
+  intros j c b. unfold Decisions.set_color_mode, set_color_mode_ref, set_color_mode. cbn zeta.
+  rewrite fold_last_bool. reflexivity.
+Qed.
+
+Lemma gen_pc_setentry : forall j c, Decisions.pc_setentry j c = pc_setentry_ref j c.
+Proof. intros [|] [|]; reflexivity. Qed.
+
+Lemma gen_set_level : forall d t lvl, Decisions.set_level d t lvl = set_level_ref d t lvl.
+Proof.
+  intros d t lvl. unfold Decisions.set_level, set_level_ref. cbn zeta.
+  change Verif.Model.Level.lv_debug with 5. change Verif.Model.Level.lv_trace with 6.
+  destruct (lvl =? 5) eqn:E5; destruct (lvl =? 6) eqn:E6; destruct d, t; try reflexivity; lia.
+Qed.
